@@ -129,6 +129,9 @@ def gen_cases(tier: str, seed: int):
         yield {"part": "closed", "entry": "statement", "ctx": "full", "sql": sql}
     for what in ("table", "view", "column"):
         yield {"part": "stale_description", "what": what}
+    for what in ("missing_table", "unknown_column", "missing_schema"):
+        for txn in (False, True):
+            yield {"part": "write_pandas_fails", "what": what, "txn": txn}
     for i in range(len(FAILS)):
         if FAILS[i][2] not in ("ctx", "ctx1"):
             yield {"part": "nop_after_failure", "fail": i}
@@ -178,6 +181,8 @@ def run_case(case: dict, env: core.Env) -> None:
         return _closed(case, env)
     if case["part"] == "stale_description":
         return _stale_description(case, env)
+    if case["part"] == "write_pandas_fails":
+        return _write_pandas_fails(case, env)
     if case["part"] == "nop_after_failure":
         return _nop_after_failure(case, env)
     name, sql, req, cause = FAILS[case["fail"]]
@@ -333,6 +338,46 @@ def _stale_description(case: dict, env: core.Env) -> None:
         except Exception as e:  # noqa: BLE001
             env.witness(f"C07/stale-description/not-a-snowflake-error/{what}/{type(e).__name__}", str(e)[:300])
         env.nontrivial(("stale_description", what))
+    finally:
+        fs.duck_conn.close()
+
+
+def _write_pandas_fails(case: dict, env: core.Env) -> None:
+    """A load that fails because of what it names fails like the INSERT it stands for, and changes nothing."""
+    import pandas as pd
+
+    import fakesnow.fakes as fakes
+
+    fs, conn = _prepare("full")
+    try:
+        cur = conn.cursor()
+        if case["txn"]:
+            cur.execute("BEGIN")
+            cur.execute("INSERT INTO DB1.S1.ORDERS VALUES (50, 'uncommitted')")
+        before = (core.snapshot(fs), core.session_state(conn), _own_view(conn))
+        what = case["what"]
+        env.count("cmp_exception")
+        try:
+            if what == "missing_table":
+                fakes.write_pandas(conn, pd.DataFrame({"ID": [1]}), "NO_SUCH_TABLE_WP")
+            elif what == "missing_schema":
+                fakes.write_pandas(conn, pd.DataFrame({"ID": [1]}), "ORDERS", database="DB1", schema="NO_SCHEMA")
+            else:
+                fakes.write_pandas(conn, pd.DataFrame({"ID": [1], "NOCOL": ["x"]}), "ORDERS")
+            env.witness(f"C07/statement-succeeded/write_pandas_{what}", "the load succeeded")
+        except core.sferr.ProgrammingError as e:
+            if what == "missing_table" and (e.errno, e.sqlstate) != (2003, "42S02"):
+                env.witness(f"C07/wrong-codes/write_pandas_{what}", f"{e.errno}/{e.sqlstate}: {e.msg}")
+        except Exception as e:  # noqa: BLE001
+            env.witness(f"C07/not-a-snowflake-error/write_pandas/{what}/{type(e).__name__}", str(e)[:300])
+        env.count("cmp_unchanged")
+        after = (core.snapshot(fs), core.session_state(conn), _own_view(conn))
+        if after != before:
+            env.witness(f"C07/failed-statement-changed-state/write_pandas_{what}", str(core.snap_diff(before[0], after[0]) or "session / own view")[:400])
+        o = core.run_stmt(conn.cursor(), "SELECT COUNT(*) FROM DB1.S1.ORDERS")
+        if not o["ok"]:
+            env.witness(f"C07/connection-unusable-after/write_pandas_{what}", str(o["exc"])[:200])
+        env.nontrivial(("write_pandas_fails", what, case["txn"]))
     finally:
         fs.duck_conn.close()
 
